@@ -81,6 +81,8 @@ func v3Kinds() []fieldKind {
 		{"operation", gen.S{"responses": okResp}, gen.S{"tags": gen.Arr("a", "b"), "summary": "s", "description": "d", "externalDocs": gen.S{"url": "http://e.x"}, "operationId": "op", "parameters": gen.Arr(gen.S{"name": "p", "in": "query", "schema": strSchema}),
 			"requestBody": gen.S{"content": gen.S{"a/b": gen.S{}}}, "callbacks": gen.S{"cb": gen.S{"{$url}": gen.S{"get": gen.S{"responses": okResp}}}}, "deprecated": true, "security": gen.Arr(gen.S{"k": gen.Arr()}), "servers": gen.Arr(gen.S{"url": "/s"})},
 			at("paths", "/p", "get")},
+		// present-and-empty values that mean something: an operation's empty security list opts out of the document's
+		{"operation(empty security)", gen.S{"responses": okResp}, gen.S{"security": gen.Arr()}, at("paths", "/p", "get")},
 		{"externalDocs", gen.S{"url": "http://e.x"}, gen.S{"description": "d"}, at("externalDocs")},
 		{"parameter", gen.S{"name": "p", "in": "query"}, gen.S{"description": "d", "required": true, "deprecated": true, "allowEmptyValue": true, "style": "form", "explode": false, "allowReserved": true, "schema": strSchema,
 			"example": "ex", "examples": gen.S{"e": gen.S{"value": "v"}}, "content": gen.S{"application/json": gen.S{"schema": strSchema}}}, func(obj gen.S) gen.S {
@@ -163,6 +165,7 @@ func v2Kinds() []fieldKind {
 			"head": gen.S{"responses": okResp}, "patch": gen.S{"responses": okResp}, "parameters": gen.Arr(gen.S{"name": "p", "in": "query", "type": "string"})}, at("paths", "/p")},
 		{"v2:operation", gen.S{"responses": okResp}, gen.S{"tags": gen.Arr("a"), "summary": "s", "description": "d", "externalDocs": gen.S{"url": "http://e.x"}, "operationId": "op", "consumes": gen.Arr("a/b"), "produces": gen.Arr("c/d"),
 			"parameters": gen.Arr(gen.S{"name": "p", "in": "query", "type": "string"}), "schemes": gen.Arr("https"), "deprecated": true, "security": gen.Arr(gen.S{"S": gen.Arr("x")})}, at("paths", "/p", "get")},
+		{"v2:operation(empty security)", gen.S{"responses": okResp}, gen.S{"security": gen.Arr()}, at("paths", "/p", "get")},
 		{"v2:parameter-nonbody", gen.S{"name": "p", "in": "query", "type": "array"}, gen.S{"description": "d", "required": true, "format": "f", "allowEmptyValue": true, "items": gen.S{"type": "string"}, "collectionFormat": "csv", "default": gen.Arr("a"),
 			"maximum": 9.0, "exclusiveMaximum": true, "minimum": 1.0, "exclusiveMinimum": true, "maxLength": 9.0, "minLength": 1.0, "pattern": "^a$", "maxItems": 9.0, "minItems": 1.0, "uniqueItems": true, "enum": gen.Arr("a", "b"), "multipleOf": 2.0},
 			func(obj gen.S) gen.S {
